@@ -130,6 +130,9 @@ func (w *World) Run(replay []simrt.Action) {
 			w.checkSignerDurable(nd)
 		}
 	}
+	if w.AtEnd != nil {
+		w.AtEnd(w)
+	}
 }
 
 func (w *World) reachedTarget() bool {
@@ -411,7 +414,9 @@ func (w *World) FairSuffix() {
 		progressed := false
 		for _, v := range vs {
 			for _, it := range w.relevantItems(v, nil) {
-				if w.Cfg.SuffixByzSilent && it.Byz {
+				if w.Cfg.SuffixByzSilent && it.Byz && !it.Held {
+					// silent Byzantine validators send nothing new; what an honest node already
+					// holds of theirs is gossiped on by that node
 					continue
 				}
 				if !v.nd.inc.Alive() {
